@@ -6,8 +6,8 @@ use serde::{Deserialize, Serialize};
 use serde_json::{json, Value as J};
 use std::collections::BTreeMap;
 
-trait Canon { fn canon(&self) -> J; }
-trait Build: Sized { fn build(j: &J) -> Self; }
+pub trait Canon { fn canon(&self) -> J; }
+pub trait Build: Sized { fn build(j: &J) -> Self; }
 fn unhex_s(j: &J) -> String { String::from_utf8(unhex(j["s"].as_str().unwrap())).unwrap() }
 macro_rules! bint { ($($t:ty),*) => {$( impl Build for $t { fn build(j: &J) -> Self { j["i"].as_str().unwrap().parse().unwrap() } } )*} }
 bint!(u8, u16, u32, u64, i8, i16, i32, i64);
